@@ -85,6 +85,7 @@ def w_parsed(parsed):
     if parsed is None:
         return 'none'
     type_, value = parsed
+    # Python None as a style (what get_target stored before 9677ed2) is an outcome the model never prints
     style = lambda s: 'none' if s is None else S.enc(s)  # noqa: E731
     if type_ == 'counter()':
         return ['c', S.enc(value[0]), S.w_name(value[1])]
